@@ -36,36 +36,36 @@ def run_channels(ctx, states, rng):
         def bad(fn, clause, extra=None):
             ctx.violation('C12:%s:%s' % (fn, clause), '%s: %s (dim_in=%d dim_out=%d terms=%d)' % (fn, clause, di, do, len(K)), dict(data, **(extra or {})))
         try:
-            if np.abs(ch.kraus_op_to_choi_op(K) - C).max() > TOL: bad('kraus_op_to_choi_op', 'Choi matrix differs (index order in,out,in,out)')
-            if np.abs(ch.kraus_op_to_choi_op(torch.tensor(K)).numpy() - C).max() > TOL: bad('kraus_op_to_choi_op', 'torch: Choi matrix differs')
-            if np.abs(ch.kraus_op_to_super_op(K) - S).max() > TOL: bad('kraus_op_to_super_op', 'super-operator differs')
-            if np.abs(ch.choi_op_to_super_op(C, di) - S).max() > TOL: bad('choi_op_to_super_op', 'reshuffle differs')
-            if np.abs(ch.super_op_to_choi_op(S) - C).max() > TOL: bad('super_op_to_choi_op', 'reshuffle differs')
+            if core.gt(np.abs(ch.kraus_op_to_choi_op(K) - C).max(), TOL): bad('kraus_op_to_choi_op', 'Choi matrix differs (index order in,out,in,out)')
+            if core.gt(np.abs(ch.kraus_op_to_choi_op(torch.tensor(K)).numpy() - C).max(), TOL): bad('kraus_op_to_choi_op', 'torch: Choi matrix differs')
+            if core.gt(np.abs(ch.kraus_op_to_super_op(K) - S).max(), TOL): bad('kraus_op_to_super_op', 'super-operator differs')
+            if core.gt(np.abs(ch.choi_op_to_super_op(C, di) - S).max(), TOL): bad('choi_op_to_super_op', 'reshuffle differs')
+            if core.gt(np.abs(ch.super_op_to_choi_op(S) - C).max(), TOL): bad('super_op_to_choi_op', 'reshuffle differs')
             for i in range(di):
                 for j in range(di):
                     e = np.zeros((di, di), dtype=complex)
                     e[i, j] = 1
                     want = gm(obs['out'][i][j])
                     ctx.evaluations += 1
-                    if np.abs(ch.apply_kraus_op(K, e) - want).max() > TOL: bad('apply_kraus_op', 'output on a matrix unit', dict(unit=[i, j]))
-                    if np.abs(ch.apply_choi_op(C, e) - want).max() > TOL: bad('apply_choi_op', 'output on a matrix unit', dict(unit=[i, j]))
-                    if np.abs(ch.apply_super_op(S, e) - want).max() > TOL: bad('apply_super_op', 'output on a matrix unit', dict(unit=[i, j]))
-                    if np.abs(ch.apply_choi_op(torch.tensor(C), torch.tensor(e)).numpy() - want).max() > TOL: bad('apply_choi_op', 'torch: output on a matrix unit', dict(unit=[i, j]))
+                    if core.gt(np.abs(ch.apply_kraus_op(K, e) - want).max(), TOL): bad('apply_kraus_op', 'output on a matrix unit', dict(unit=[i, j]))
+                    if core.gt(np.abs(ch.apply_choi_op(C, e) - want).max(), TOL): bad('apply_choi_op', 'output on a matrix unit', dict(unit=[i, j]))
+                    if core.gt(np.abs(ch.apply_super_op(S, e) - want).max(), TOL): bad('apply_super_op', 'output on a matrix unit', dict(unit=[i, j]))
+                    if core.gt(np.abs(ch.apply_choi_op(torch.tensor(C), torch.tensor(e)).numpy() - want).max(), TOL): bad('apply_choi_op', 'torch: output on a matrix unit', dict(unit=[i, j]))
             # Hermitian integer input: all three forms agree with the linear extension of the unit outputs
             X = np.array([[complex(rng.randint(-3, 3), rng.randint(-3, 3)) for _ in range(di)] for _ in range(di)])
             rho = X + X.conj().T
             want = sum(rho[i, j] * gm(obs['out'][i][j]) for i in range(di) for j in range(di))
             for fn, got in (('apply_kraus_op', ch.apply_kraus_op(K, rho)), ('apply_choi_op', ch.apply_choi_op(C, rho)), ('apply_super_op', ch.apply_super_op(S, rho))):
-                if np.abs(got - want).max() > TOL: bad(fn, 'output on a Hermitian integer input')
+                if core.gt(np.abs(got - want).max(), TOL): bad(fn, 'output on a Hermitian integer input')
             # Kraus form obtained back (not unique): judged through the Choi matrix it defines and through its action
             for fn, K2 in (('choi_op_to_kraus_op', ch.choi_op_to_kraus_op(C, di)), ('super_op_to_kraus_op', ch.super_op_to_kraus_op(S)),
                            ('hf_channel_to_kraus_op', ch.hf_channel_to_kraus_op(lambda r: sum(k @ r @ k.conj().T for k in K), di))):
                 if K2.ndim != 3 or K2.shape[1:] != (do, di):
                     bad(fn, 'shape of the Kraus operators', dict(shape=list(K2.shape)))
-                elif np.abs(choi_from_kraus(K2) - C).max() > 1e-8:
+                elif core.gt(np.abs(choi_from_kraus(K2) - C).max(), 1e-8):
                     bad(fn, 'Kraus operators obtained back do not reproduce the channel')
             C4 = ch.hf_channel_to_choi_op(lambda r: sum(k @ r @ k.conj().T for k in K), di)
-            if np.abs(np.asarray(C4).reshape(di * do, di * do) - C).max() > TOL: bad('hf_channel_to_choi_op', 'Choi matrix of a linear map')
+            if core.gt(np.abs(np.asarray(C4).reshape(di * do, di * do) - C).max(), TOL): bad('hf_channel_to_choi_op', 'Choi matrix of a linear map')
             # affine Bloch map of trace-preserving channels, through the (C16-verified) Gell-Mann coordinates
             if obs['tp'] and di >= 2 and do >= 2:
                 A, b = ch.choi_op_to_bloch_map(C.reshape(di, do, di, do))
@@ -75,7 +75,7 @@ def run_channels(ctx, states, rng):
                 out = sum(r0[i, j] * gm(obs['out'][i][j]) for i in range(di) for j in range(di))
                 v_in = numqi.gellmann.dm_to_gellmann_basis(r0)
                 v_out = numqi.gellmann.dm_to_gellmann_basis(out)
-                if np.abs(A @ v_in + b - v_out).max() > 1e-8: bad('choi_op_to_bloch_map', 'affine Bloch map does not reproduce the output state')
+                if core.gt(np.abs(A @ v_in + b - v_out).max(), 1e-8): bad('choi_op_to_bloch_map', 'affine Bloch map does not reproduce the output state')
         except Exception as ex:
             ctx.violation('C12:exception:channel', type(ex).__name__ + ': ' + str(ex)[:160], data)
     st = states[len(states) // 3]
@@ -95,14 +95,14 @@ def run_noise(ctx):
             assert sum(w for w, _ in terms) == 1          # trace preservation as a rational identity
             K = getattr(ch, fn)(pf)
             want = np.stack([np.sqrt(float(w)) * m for w, m in terms])
-            if K.shape != want.shape or np.abs(K - want).max() > 1e-12:
+            if K.shape != want.shape or core.gt(np.abs(K - want).max(), 1e-12):
                 ctx.violation('C12:%s:kraus' % fn, 'Kraus operators differ from sqrt(weight) * Pauli at rate %s' % p, dict(rate=str(p)))
-            if np.abs(sum(k.conj().T @ k for k in K) - np.eye(2)).max() > 1e-12:
+            if core.gt(np.abs(sum(k.conj().T @ k for k in K) - np.eye(2)).max(), 1e-12):
                 ctx.violation('C12:%s:trace-preserving' % fn, 'sum K^dagger K != I at rate %s' % p, dict(rate=str(p)))
         ctx.case(('noise', 'amplitude_damping', str(p)))
         K = ch.hf_amplitude_damping_kraus_op(pf)
         want = np.array([[[1, 0], [0, np.sqrt(float(1 - p))]], [[0, np.sqrt(float(p))], [0, 0]]])
-        if np.abs(K - want).max() > 1e-12 or np.abs(sum(k.conj().T @ k for k in K) - np.eye(2)).max() > 1e-12:
+        if core.gt(np.abs(K - want).max(), 1e-12) or core.gt(np.abs(sum(k.conj().T @ k for k in K) - np.eye(2)).max(), 1e-12):
             ctx.violation('C12:hf_amplitude_damping_kraus_op:kraus', 'Kraus operators / trace preservation at rate %s' % p, dict(rate=str(p)))
 
 
@@ -126,17 +126,17 @@ def run_classical(ctx, states, rng, limit):
             D0 = obs['d2'] / (2 * A * B)
             D1 = obs['d2after'] / (2 * A * B)
             F0 = obs['fnum'] / (A * B)
-            if abs(numqi.utils.get_trace_distance(p, q) - D0) > TOL:
+            if core.gt(abs(numqi.utils.get_trace_distance(p, q) - D0), TOL):
                 ctx.violation('C12:get_trace_distance:classical', 'trace distance of diagonal states differs from the exact value', data)
             pp, qq = ch.apply_kraus_op(K, p), ch.apply_kraus_op(K, q)
             t1 = numqi.utils.get_trace_distance(pp, qq)
-            if abs(t1 - D1) > TOL:
+            if core.gt(abs(t1 - D1), TOL):
                 ctx.violation('C12:get_trace_distance:after-channel', 'trace distance after a relabelling channel differs from the exact value (monotonicity is proved on the exact values)', data)
             f01, f10 = numqi.utils.get_fidelity(p, q), numqi.utils.get_fidelity(q, p)
-            if abs(f01 - F0) > 1e-8 or abs(f10 - F0) > 1e-8:
+            if core.gt(abs(f01 - F0), 1e-8) or core.gt(abs(f10 - F0), 1e-8):
                 ctx.violation('C12:get_fidelity:classical', 'fidelity of diagonal states differs from the exact value / is not symmetric', data)
             f1 = numqi.utils.get_fidelity(pp, qq)
-            if f1 < F0 - 1e-8 or f1 > 1 + 1e-8:
+            if not (F0 - 1e-8 <= f1 <= 1 + 1e-8):
                 ctx.violation('C12:get_fidelity:monotone', 'fidelity decreased under a channel or left [0,1]', data)
         except Exception as ex:
             ctx.violation('C12:exception:classical', type(ex).__name__ + ': ' + str(ex)[:160], data)
@@ -165,7 +165,7 @@ def run_purefid(ctx, states):
             for name, got, want in forms:
                 ctx.evaluations += 1
                 # dm/dm forms take a matrix square root of a rank-deficient projector: errors of order sqrt(machine eps)
-                if not np.isfinite(got) or abs(float(got) - want) > (1e-6 if 'projector' in name else 1e-8):
+                if not np.isfinite(got) or core.gt(abs(float(got) - want), (1e-6 if 'projector' in name else 1e-8)):
                     ctx.violation('C12:get_fidelity:%s' % name, 'get_fidelity(%s) differs from the exact value %.12g (got %.12g): fidelity is not symmetric / representation independent' % (name, want, float(got)), data)
         except Exception as ex:
             ctx.violation('C12:exception:get_fidelity', type(ex).__name__ + ': ' + str(ex)[:160], data)
@@ -212,7 +212,7 @@ def run_qubit(ctx, quick):
             outs['apply_choi_op'] = (ch.apply_choi_op(C, rho), ch.apply_choi_op(C, sig))
             outs['apply_super_op'] = (ch.apply_super_op(S, rho), ch.apply_super_op(S, sig))
             for fn, (o1, o2) in outs.items():
-                if np.abs(o1 - rho1).max() > TOL or np.abs(o2 - sig1).max() > TOL:
+                if core.gt(np.abs(o1 - rho1).max(), TOL) or core.gt(np.abs(o2 - sig1).max(), TOL):
                     ctx.violation('C12:%s:qubit-%s' % (fn, c['kind']), 'output state differs from the exact affine Bloch image', data)
             o1, o2 = outs['apply_kraus_op']
             T0, T1 = np.sqrt(obs['d2']) / (2 * Du * Dv), np.sqrt(obs['d2a']) / (2 * m * Du * Dv)
@@ -223,9 +223,9 @@ def run_qubit(ctx, quick):
             g = numqi.utils.get_trace_distance
             F = numqi.utils.get_fidelity
             t0, t1 = g(rho, sig), g(o1, o2)
-            if abs(t0 - T0) > 1e-8 or abs(g(sig, rho) - T0) > 1e-8:
+            if core.gt(abs(t0 - T0), 1e-8) or core.gt(abs(g(sig, rho) - T0), 1e-8):
                 ctx.violation('C12:get_trace_distance:qubit', 'trace distance differs from |r-s|/2 = %.12g (got %.12g)' % (T0, t0), data)
-            if abs(t1 - T1) > 1e-8:
+            if core.gt(abs(t1 - T1), 1e-8):
                 ctx.violation('C12:get_trace_distance:qubit-after-channel', 'trace distance after the channel differs from the exact value %.12g (got %.12g); contraction is proved on the exact values' % (T1, t1), data)
             if t1 > t0 + 1e-9:
                 ctx.violation('C12:get_trace_distance:contractive', 'trace distance increased under %s' % c['kind'], data)
